@@ -98,6 +98,18 @@ theorem unsigned_malformed_foreign_rejected (f : SFmt) (rk : Nat) (e : Name) :
   · intro m hm
     simp [verifyHeader, s0.1, s0.2.1, s0.2.2.1, verifyString, hm]
 
+/-- (2′) Completeness: a tape the legitimate writer produced (every record carries the signature
+    by the writer's key over its own embedded header) is accepted in full, in order. -/
+theorem legitimate_tape_accepted (f : SFmt) (rk : Nat) (msgs : List Name) :
+    acceptAll f rk (msgs.map (fun m => ({ embedded := some m, sig := some (.valid rk m) } : Outer))) = (msgs, true) := by
+  have s0 := verify_skeleton
+  induction msgs with
+  | nil => rfl
+  | cons m rest ih =>
+    have hv : verifyHeader f rk { embedded := some m, sig := some (.valid rk m) } = some m := by
+      simp [verifyHeader, s0.1, s0.2.1, s0.2.2.1, verifyString]
+    simp only [List.map_cons, acceptAll, hv, ih]
+
 /-- (3) Every restored content of a regular entry is the content signed under its (accepted)
     header, or the restore fails. -/
 theorem restored_content_was_signed (f : SFmt) (rk : Nat) (h : Inner) (hr : h.regular = true) (c out : Name)
